@@ -155,3 +155,62 @@ def setup(E):
             if p % 2 == 0:
                 lemma_lastmiss_cur(c // 2, p // 2)
         """, decreases="p", props=["C18"]))
+
+
+# ---------------------------------------------------------------------------- bounded scopes
+def _scopes(E):
+    import itertools
+    from pyvc.driver import Scope
+
+    def bits(tier):
+        return {"quick": 6, "concretise": 6, "thorough": 9}.get(tier, 6)
+
+    def gen_complete(tier, rng):
+        for n in range(0, bits(tier) + 3):
+            yield {"sequence": [f"e{i}" for i in range(n)]}
+
+    def gen_mask_from(tier, rng):
+        n = 4 if tier != "thorough" else 6
+        for ln in range(0, n + 1):
+            parent = [f"e{i}" for i in range(ln)]
+            for m in range(2 ** ln):
+                yield {"child": [parent[i] for i in range(ln) if m >> i & 1], "parent": parent}
+            # children that are not subsequences, repeated elements in the parent
+            for child in itertools.product(parent + ["zz"], repeat=min(ln, 2)):
+                yield {"child": list(child), "parent": parent}
+            if ln >= 2:
+                yield {"child": [parent[0]], "parent": parent[:1] + parent[:1] + parent[1:]}
+
+    def gen_from_mask(tier, rng):
+        n = 5 if tier != "thorough" else 8
+        for ln in range(0, n + 1):
+            parent = [f"e{i}" for i in range(ln)]
+            for m in range(2 ** ln + 2):
+                yield {"child": m, "parent": parent}
+
+    def gen_seg(tier, rng):
+        b = bits(tier)
+        for child in range(2 ** b):
+            for parent in range(2 ** b):
+                for edges in (True, False):
+                    yield {"child": child, "parent": parent, "edges": edges}
+        for _ in range(200):
+            w = rng.randrange(10, 40)
+            p = rng.getrandbits(w)
+            c = p & rng.getrandbits(w) if rng.random() < 0.8 else rng.getrandbits(w)
+            yield {"child": c, "parent": p, "edges": rng.random() < 0.5}
+
+    S = E.registry.scopes
+    S[f"{M}:subseq_complete"] = Scope(gen_complete, describe="sequences of length 0..8 (11 thorough)")
+    S[f"{M}:mask_from_subseq"] = Scope(gen_mask_from, describe="parents of <= 4 (6) distinct elements, all subsequences, short non-subsequences, one repeated parent")
+    S[f"{M}:subseq_from_mask"] = Scope(gen_from_mask, describe="parents of <= 5 (8) elements, every mask up to 2**len + 1 (the out-of-range ones are skipped by the precondition)")
+    S[f"{M}:subseq_segment_dist"] = Scope(gen_seg, describe="all (child, parent) < 2**6 (2**9 thorough) x both end modes, plus 200 random wide masks",
+                                          nontrivial=lambda r: r["child"] > 0)
+
+
+_setup_contracts = setup
+
+
+def setup(E):  # noqa: F811
+    _setup_contracts(E)
+    _scopes(E)
